@@ -1106,6 +1106,11 @@ pub fn body(input: ParseString) -> ParseResult<Body> {
     match section(new_input.clone()) {
       Ok((input, sect)) => {
         //println!("Parsed section: {:#?}", sect);
+        // a section that consumed nothing (a stray section-close mark) would be parsed again
+        // forever: stop here and let `parse` report the text that is left
+        if input.cursor == new_input.cursor {
+          break;
+        }
         sections.push(sect);
         new_input = input;
       }
